@@ -164,6 +164,15 @@ def apply_mod(data, mod):
             occs[zero[0]] = 1.0
         data.mo = MolecularOrbitals("restricted", mo.norba, mo.norbb, occs, np.array(mo.coeffs),
                                     None if mo.energies is None else np.array(mo.energies), None, np.zeros_like(occs))
+    elif op == "known_extras":
+        # optional data the writers look for in `extra`
+        norb = data.mo.norb if data.mo is not None and data.mo.kind != "generalized" else 0
+        data.extra.update({
+            "mo_spin": np.array([3] * norb) if (data.mo is not None and data.mo.kind == "restricted") else np.array([1, 2] * norb)[:norb],
+            "virial_ratio": 2.0012, "keywords": "GTO", "num_perturbations": 0, "nuc_viral": 0.25,
+            "full_virial_ratio": 2.0001, "num_core_electrons": 2, "compound": "a compound\nsecond line",
+            "polarizability_tensor": np.array([[1.0, 0.1, 0.0], [0.1, 2.0, 0.0], [0.0, 0.0, 3.0]]),
+        })
     elif op == "conv_signs":
         # the caller's basis uses its own sign conventions (as ORCA does for f/g functions); C-contiguous coefficients
         conv = {}
@@ -262,6 +271,19 @@ def apply_mod(data, mod):
             i, j = int(nz[-1]), int(zero[-1])
             occs[i], occs[j] = occs[j], occs[i]
         mo.occs = occs
+    elif op == "nonaufbau_beta":
+        # restricted orbitals whose alpha occupations are aufbau but whose beta occupations are not: [.., 2, 1, 2, 0, ..]
+        mo = data.mo
+        if mo.kind != "restricted":
+            norb = mo.norba
+            mo = MolecularOrbitals("restricted", norb, norb, np.array(mo.occsa) + np.array(mo.occsb[:norb]) if mo.norbb == norb else np.array(mo.occsa) * 2,
+                                   np.array(mo.coeffsa), None if mo.energies is None else np.array(mo.energiesa))
+        occs = np.round(np.array(mo.occs))
+        two = np.nonzero(occs == 2)[0]
+        if len(two) >= 2:
+            occs[two[-2]] = 1.0
+        data.mo = MolecularOrbitals("restricted", mo.norba, mo.norbb, occs, np.array(mo.coeffs),
+                                    None if mo.energies is None else np.array(mo.energies))
     elif op == "drop_extra":
         data.extra.pop(mod["key"], None)
     elif op == "ghost":
